@@ -19,6 +19,7 @@ void *memcpy (void *dst, const void *src, size_t n) {
   vp_writes_in_window++;
   return dst;
 }
+void __builtin___clear_cache (char *b, char *e) { (void) b; (void) e; } /* cache flush: no effect on C state */
 #include "mir.c"
 #define REACH(msg) __CPROVER_assert (0, "VP_REACH: " msg)
 static int vp_mem_protect (void *addr, size_t len, MIR_mem_protect_t prot, void *ud) {
@@ -57,3 +58,62 @@ void h_set_code (void) {
   __CPROVER_assert (vp_writes_in_window == nloc, "postcondition: one write per relocation");
   REACH ("end");
 }
+
+/* ---- callers of _MIR_set_code: the window they request covers every byte they ask to be written.
+   In these harnesses the stager renames the real _MIR_set_code and puts this model in its place: it
+   checks the callee precondition for the relocation with ghost index vp_G. */
+#ifdef VP_SET_CODE_MODEL
+unsigned vp_set_code_calls;
+static void vp_model_set_code (MIR_code_alloc_t code_alloc, size_t prot_start, size_t prot_len, uint8_t *base, size_t nloc,
+                               const MIR_code_reloc_t *relocs, size_t reloc_size) {
+  (void) code_alloc;
+  vp_set_code_calls++;
+  if (vp_G < nloc) {
+    size_t sz = reloc_size == 0 ? sizeof (void *) : reloc_size;
+    __CPROVER_assert ((size_t) base + relocs[vp_G].offset >= prot_start
+                        && (size_t) base + relocs[vp_G].offset + sz <= prot_start + prot_len,
+                      "callee precondition: every relocation lies inside the write window the caller requests");
+  }
+}
+static struct MIR_context vp_ctx;
+static struct machine_code_ctx vp_mc;
+static void vp_ctx_setup (void) { MIR_context_t ctx = &vp_ctx; ctx->machine_code_ctx = &vp_mc; page_size = 4096; /* mir.c: #define page_size ctx->machine_code_ctx->page_size */ }
+void h_update_code_arr (void) {
+  vp_G = nondet_size ();
+  vp_ctx_setup ();
+  size_t nloc = nondet_size ();
+  __CPROVER_assume (nloc >= 1 && nloc <= 3 && vp_G < nloc); /* bounded: the max loop is unwound; offsets must not wrap */
+  MIR_code_reloc_t relocs[3];
+  for (int k = 0; k < 3; k++) { relocs[k].offset = nondet_size (); __CPROVER_assume (relocs[k].offset <= ((size_t) 1 << 40)); }
+  uint8_t *base = (uint8_t *) nondet_size ();
+  __CPROVER_assume ((size_t) base <= ((size_t) 1 << 46));
+  _MIR_update_code_arr (&vp_ctx, base, nloc, relocs);
+  __CPROVER_assert (vp_set_code_calls == 1, "postcondition: code is written through _MIR_set_code");
+  REACH ("end");
+}
+void h_change_code (void) {
+  vp_G = 0;
+  vp_ctx_setup ();
+  size_t len = nondet_size ();
+  uint8_t *addr = (uint8_t *) nondet_size ();
+  __CPROVER_assume ((size_t) addr <= ((size_t) 1 << 46) && len >= 1 && len <= ((size_t) 1 << 30)); /* length 0 would select pointer-relocation mode */
+  static const uint8_t code[1];
+  _MIR_change_code (&vp_ctx, addr, code, len);
+  __CPROVER_assert (vp_set_code_calls == 1, "postcondition: code is written through _MIR_set_code");
+  REACH ("end");
+}
+void h_add_code (void) {
+  vp_G = 0;
+  vp_ctx_setup ();
+  code_holder_t ch;
+  size_t start = nondet_size (), fr = nondet_size (), bound = nondet_size (), len = nondet_size ();
+  __CPROVER_assume (start <= fr && fr <= bound && bound <= ((size_t) 1 << 46) && len >= 1 && len <= bound - fr); /* holder invariant + get_last_code_holder */
+  ch.start = (uint8_t *) start; ch.free = (uint8_t *) fr; ch.bound = (uint8_t *) bound;
+  static const uint8_t code[1];
+  uint8_t *res = add_code (&vp_ctx, &ch, code, len);
+  __CPROVER_assert (res == (uint8_t *) fr && ch.free == (uint8_t *) (fr + len) && ch.free <= ch.bound && ch.start == (uint8_t *) start,
+                    "postcondition: the code is placed at the old free pointer and the holder invariant is kept");
+  __CPROVER_assert (vp_set_code_calls == 1, "postcondition: code is written through _MIR_set_code");
+  REACH ("end");
+}
+#endif
